@@ -12,18 +12,20 @@
 
 type pf = { fname : string; fnb : n list; bytes : n list; len : int; parsed : bool; frag : bool; tok : bool;
             fi : fileinfo; so : socc list; strs : (n list * loc) list;
-            lends : (loc * n list list) list (* initialiser regions of the local statements, with their names *) }
+            lends : (loc * n list list) list (* initialiser regions of the local statements, with their names *);
+            rps : (n list * loc) list         (* re-pointing right-hand sides with their target names (B4 at the boundary) *);
+            rends : loc list                  (* Locs of the repeat statements (adjacent_repeat_end) *) }
 
 let dummy_fi = analyse (Block ([], None, zero_loc))
 
 let prep (name, bs) : pf =
   oracle_used := false;
   let base = { fname = name; fnb = bytes_of_string name; bytes = bs; len = List.length bs; parsed = false;
-               frag = false; tok = text_ok_wide bs; fi = dummy_fi; so = []; strs = []; lends = [] } in
+               frag = false; tok = text_ok_wide bs; fi = dummy_fi; so = []; strs = []; lends = []; rps = []; rends = [] } in
   match parse_bytes gbk_oracle classify_tok bs with
   | Ok (PR (blk, [], [])) when not !oracle_used ->
     { base with parsed = true; frag = in_wide blk; fi = analyse_wide blk; so = bind_file_wide blk; strs = strs_block blk;
-      lends = lends_block blk }
+      lends = lends_block blk; rps = rp_block blk; rends = rends_block blk }
   | _ -> base
 
 let zi = int_of_z
@@ -156,7 +158,22 @@ let eval_step (leg : string) (cx : ctx) (st : srv_step) : (string * string * str
       let adj = if adj = [] && leg = "c12.consist"
                    && List.exists (fun (o : socc) -> o.s_name = snd s && after_local p.lends o.s_name o.s_loc.sl o.s_loc.sc) p.so
                 then ["B1_adjacent_local_end"] else adj in
-      Some (m, sp, cls_s ((ignore docend; cl @ adj))) in
+      (* cursor at the END of an identifier glued to the first column of the Loc of a call that re-points the "empty"
+         local of that name (`n = v[n]()`: the call's Loc starts at `]`): the point lies inside the ReferExp (class B4),
+         although the identifier's Loc is not contained in it (no tag CB4 on the occurrence) *)
+      let bnd = (match o with
+          | Some o when b4_boundary p.rps o (z1 line) (z_of_int col) -> ["B4_forward_decl"]
+          | _ -> []) in
+      (* cursor on the first column of an identifier glued to the end of a `repeat ... until e` statement: the (inclusive)
+         end column of the repeat scope - the name is looked up inside the block *)
+      let rend = if at_repeat_end p.rends (z1 line) (z_of_int col) then ["adjacent_repeat_end"] else [] in
+      let (bnd, rend) = if leg = "c12.consist" then
+          ((if bnd = [] && List.exists (fun (o : socc) -> o.s_name = snd s && b4_boundary p.rps o o.s_loc.el o.s_loc.ec) p.so
+            then ["B4_forward_decl"] else bnd),
+           (if rend = [] && List.exists (fun (o : socc) -> o.s_name = snd s && at_repeat_end p.rends o.s_loc.sl o.s_loc.sc) p.so
+            then ["adjacent_repeat_end"] else rend))
+        else (bnd, rend) in
+      Some (m, sp, cls_s ((ignore docend; cl @ adj @ bnd @ rend))) in
   match st with
   | StDefine (i, line, col) ->
     pos_query "define" i line col (fun p (g, s) o empty ->
